@@ -102,6 +102,18 @@ func byteOrderOf(v ssa.Value) string {
 // `for _, v := range []interface{}{a, b, c}` loop to the literal's elements in
 // index order. ok=false if the argument is not that idiom.
 func literalElems(data ssa.Value) ([]ssa.Value, bool) {
+	// the same loop over an array literal of typed pointers ([...]*uint32{&a, &b}):
+	// the element is converted to the interface at the call, and read by value
+	// indexing of the loaded array
+	if mi, isMI := data.(*ssa.MakeInterface); isMI {
+		if ix, isIx := mi.X.(*ssa.Index); isIx {
+			if ald, isLd := ix.X.(*ssa.UnOp); isLd && ald.Op == token.MUL {
+				if al, isAl := ald.X.(*ssa.Alloc); isAl {
+					return arrayLiteralElems(al, nil)
+				}
+			}
+		}
+	}
 	ld, ok := data.(*ssa.UnOp)
 	if !ok || ld.Op != token.MUL {
 		return nil, false
@@ -114,6 +126,12 @@ func literalElems(data ssa.Value) ([]ssa.Value, bool) {
 	if !ok {
 		return nil, false
 	}
+	return arrayLiteralElems(root, ia)
+}
+
+// arrayLiteralElems: the values stored at the constant indices of a local array
+// (skip: the element address that is the loop's own read), all of them or nothing.
+func arrayLiteralElems(root *ssa.Alloc, ia *ssa.IndexAddr) ([]ssa.Value, bool) {
 	arr, ok := root.Type().Underlying().(*types.Pointer).Elem().Underlying().(*types.Array)
 	if !ok {
 		return nil, false
@@ -810,12 +828,25 @@ func lastComponent(id string) string {
 // has no name and matches by width and order alone.
 func sameWireName(a, b leaf) bool {
 	local := func(l leaf) bool {
-		return l.id == "(skipped)" || l.id == "value" || l.id == "bytes" || l.src != nil && l.src.field == nil && !strings.Contains(l.id, ".")
+		return l.id == "(skipped)" || l.id == "value" || l.id == "bytes" || plainLocalLeaf(l)
 	}
 	if local(a) || local(b) {
 		return true
 	}
 	return lastComponent(a.id) == lastComponent(b.id)
+}
+
+// plainLocalLeaf: the leaf is a whole datum read into / written from a plain local
+// (no field of any struct): of a basic type, or of a named non-struct type (then
+// the leaf id is the type's own name, not a field path).
+func plainLocalLeaf(l leaf) bool {
+	if l.src == nil || l.src.field != nil {
+		return false
+	}
+	if !strings.Contains(l.id, ".") {
+		return true
+	}
+	return strings.HasPrefix(l.src.what, "type:") && l.id == strings.TrimPrefix(l.src.what, "type:")
 }
 
 // localFieldEmpty: field idx of the local struct al is nil/empty whenever
